@@ -6,6 +6,9 @@ V = os.path.dirname(os.path.dirname(os.path.abspath(__file__)))
 # id -> (technique, level text, level note, design ref)
 PROOF_NOTE = "Lean 4.33 kernel; axioms propext/Quot.sound/Classical.choice only (audited per run); translator go/extract and the layout interpreter Model/Layout.lean validated against the real IEncode/IDecode by the correspondence run; Go runtime/stdlib modelled (DESIGN.md 2.6)."
 CLAIMED = {
+ "C15": ("Lean 4 theorems: digest-input layout and 10-digit timestamp by induction, exchange theorem for an uninterpreted MD5 as a corollary of the reflective round-trip theorem on the regenerated connect/login layouts (`decide` per run); library authenticators compared with crypto/md5 of the model's digest input",
+         "For an arbitrary digest function the decoded account, timestamp and 16 digest octets equal the sent ones for CMPP 2.0/3.0 connect(+resp) and SMGP login, for all field values (0x00 octets included); MD5 itself is outside the proof and the library's digest is compared with crypto/md5 over the model's input on 3k-150k credential sets.",
+         PROOF_NOTE + " crypto/md5 uninterpreted.", "DESIGN.md 4/C15"),
  "C10": ("Lean 4 `decide` over tables regenerated from the Go source (GetCommand, GenEmptyResponse, Get/SetSequenceID, the five Decode* switches, header offsets from the layouts) against a hand-written request/response specification table; tables validated against the real methods and dispatchers by correspondence",
          "Finite-table proof: every clause of the property is a closed statement over regenerated tables (all PDU types, all dispatcher cases); the 32-bit quantifiers (all sequence numbers, all header ids) are lifted by lemma (respCmdOK_sound) or are structural (the sequence is copied, not computed). The harness exercises all types x bind flavours x sequence edges and 2k-100k dispatcher ids.",
          PROOF_NOTE, "DESIGN.md 4/C10"),
@@ -37,7 +40,7 @@ def main():
                 technique=tech))
         else:
             na.append(dict(property_id=p, reason=PENDING_REASON))
-    hooks_commits = []
+    hooks_commits = [l.split()[0] for l in __import__('subprocess').run(['git','-C','/repo','log','--format=%h %s'],capture_output=True,text=True).stdout.splitlines() if 'verif hook' in l]
     m = dict(
         version=1,
         setup_cmd="./check --setup",
